@@ -171,7 +171,7 @@ func (s *Spec) IsLeafSpec() bool { return s.C == nil && len(s.X) == 0 }
 func (s *Spec) WellFormed() bool {
 	for _, n := range s.Nodes() {
 		switch n.K {
-		case "wrapfgosyntax", "wrapferr", "assertwraperr", "mark", "secondary", "combine", "newfwerr":
+		case "wrapfgosyntax", "wrapferr", "wrapferrprec", "assertwraperr", "mark", "secondary", "combine", "newfwerr":
 			if len(n.X) != 1 || n.C == nil {
 				return false
 			}
